@@ -287,7 +287,7 @@ def step' (st : St) (ws : List String) : St × String :=
       let s := run P (State.init (Frame.entry CallFlags.all none) st.contracts) prog
       (st, if s.halted then "fault:perm" else "halt")
     | _, _, _, _ => (st, "bad-op")
-  | "mvalid" :: _ | "mvalidsz" :: _ | "mitem" :: _ | "mcancall" :: _ => (st, (ManIO.step ws).getD "bad-op")
+  | "mvalid" :: _ | "mvalidsz" :: _ | "mitem" :: _ | "mitemx" :: _ | "mcancall" :: _ => (st, (ManIO.step ws).getD "bad-op")
   | _ => (st, "bad-op")
 
 def main : IO Unit := Proto.run ({} : St) step'
